@@ -179,6 +179,7 @@ type Scenario struct {
 	ToPanelCap    int  // capacity of the msgsToPanel channel (0 = unbuffered)
 	SharedBacking bool // all lists of one submitter are sub-slices of ONE array with spare capacity behind each of them
 	NilToPanel    bool // ConnectToPanel is given a nil msgsToPanel channel (a listen-only client)
+	SmallBuffers  bool // 4 KiB socket buffers on both ends (the peer's receive buffer, the client's send buffer through the conn handed to onconnect): a few hundred KiB block the writer while the panel is not reading, so the blocked-writer situations fit into a case line
 	Alone         bool // nothing else runs in this process meanwhile (package-level state of the library - a shared cache, a pool - would otherwise be disturbed by the other scenarios' traffic, which can HIDE a defect: seed C09-14's one-slot frame cache only hits when no other message is encoded in between)
 	SameObjects   bool // every submitter reuses ONE message object per list position: before each submission the objects are overwritten in place with that submission's content (how an application keeps "the state of button 7"); use with a Delay that lets the previous list reach the panel
 	FloodKB       int  // an extra submitter hands in 32 KiB graphics states (not listed in the case) from SubStart on until that many KiB are in or the context ends
@@ -205,10 +206,13 @@ func (sc *Scenario) knobSuffix() string {
 	if sc.SameObjects {
 		s += "-SAMEOBJ"
 	}
+	if sc.SmallBuffers {
+		s += "-SMALLBUF"
+	}
 	return s
 }
 
-var knobRe = regexp.MustCompile(`-(PF|PT|CAP|FLOOD)(\d+)|-(SHARED|NILTP|SAMEOBJ)`)
+var knobRe = regexp.MustCompile(`-(PF|PT|CAP|FLOOD)(\d+)|-(SHARED|NILTP|SAMEOBJ|SMALLBUF)`)
 
 func (sc *Scenario) parseKnobs() {
 	for _, m := range knobRe.FindAllStringSubmatch(sc.ID, -1) {
@@ -228,6 +232,8 @@ func (sc *Scenario) parseKnobs() {
 			sc.NilToPanel = true
 		case m[3] == "SAMEOBJ":
 			sc.SameObjects = true
+		case m[3] == "SMALLBUF":
+			sc.SmallBuffers = true
 		}
 	}
 }
@@ -325,6 +331,9 @@ func runScenario(sc *Scenario) []Sx {
 			}
 			if i == len(sc.Conns)-1 {
 				closeListener()
+			}
+			if tc, ok := c.(*net.TCPConn); ok && sc.SmallBuffers {
+				tc.SetReadBuffer(4096)
 			}
 			pr := &peerRec{conn: c, endT: -1, done: make(chan struct{})}
 			peersMu.Lock()
@@ -460,6 +469,9 @@ func runScenario(sc *Scenario) []Sx {
 		nConnect := 0
 		onconnect := func(e string, bin bool, c net.Conn) {
 			lg.add(func(t int) Sx { return L(Sym("con"), t, []byte(e), bin) })
+			if tc, ok := c.(*net.TCPConn); ok && sc.SmallBuffers {
+				tc.SetWriteBuffer(4096)
+			}
 			if len(sc.ConnectWrite) > 0 {
 				c.Write(sc.ConnectWrite)
 			}
